@@ -299,8 +299,47 @@ def scanJudge (d : Dest) (t : Term) (impl : String) : String :=
       | none => "FAIL Scan stored a value that is not a value of the destination type: " ++ g
     | _ => "FAIL unparsable output"
 
+/-- several variables scanned into one map: every entry is judged as the scan of ITS variable alone -/
+def scanMulti (dn : String) (tss : List String) (impl : String) : String × String :=
+  match parseDest dn, tss.mapM (fun ts => match parseTerms ts with | some [t] => some t | _ => none) with
+  | some d, some ts =>
+    let parts := ts.map fun t0 =>
+      let (t, marked) := unmark t0
+      (t, scanModel d t (marked.flatMap suffixes))
+    let names := ["X", "Y", "Z"]
+    let model :=
+      if parts.any (fun p => p.2 == "err") then "err"
+      else "ok" ++ String.join ((names.zip parts).map fun (n, p) => " " ++ n ++ "=" ++ (p.2.drop 3).toString)
+    -- the implementation's entries
+    let verdict :=
+      if impl == "err" then
+        -- an error is admissible iff some variable's own scan may be an error
+        if parts.any (fun p => (scanJudge d p.1 "err") == "ok") then "ok"
+        else "FAIL Scan returned an error although every value converts"
+      else
+        let segs := (impl.splitOn " ").filter (fun s => s.startsWith "X=" || s.startsWith "Y=" || s.startsWith "Z=")
+        -- values may contain blanks: cut the line at the markers instead
+        let cut := fun (a b : String) =>
+          match impl.splitOn (" " ++ a ++ "=") with
+          | _ :: rest :: _ => if b == "" then rest else (rest.splitOn (" " ++ b ++ "=")).headD rest
+          | _ => "?"
+        let vals := [cut "X" "Y", cut "Y" "Z", cut "Z" ""]
+        let _ := segs
+        let bad := (vals.zip parts).filter fun (v, p) =>
+          let j := scanJudge d p.1 ("ok " ++ v)
+          j != "ok" && j != "-"
+        match bad with
+        | [] => "ok"
+        | (v, p) :: _ => "FAIL an entry of the map is not the value of its variable: got " ++ v ++ " — " ++ scanJudge d p.1 ("ok " ++ v)
+    (model, verdict)
+  | _, _ => ("BAD-CASE", "FAIL unparsable case")
+
 def scanHandler : Handler := fun payload impl =>
   match fieldsOf payload with
+  | hd :: t1 :: t2 :: t3 :: [] =>
+    match words hd with
+    | ["MM", dn] => scanMulti dn [t1, t2, t3] impl
+    | _ => ("BAD-CASE", "FAIL unparsable case")
   | [hd, ts] =>
     match words hd, parseTerms ts with
     | [_, dn], some [t0] =>
